@@ -86,6 +86,7 @@ func isZeroTime(v ssa.Value) bool {
 
 func runC17(c *Ctx) {
 	p := c.P
+	setUnitExclude()
 	sibs := findCtxIO(p)
 	fl := c.Obl("R0", "context-wrappers", "the six context-aware I/O functions (netctx.conn, netctx.packetConn, connctx.connCtx x Read/Write) are found", 6)
 	for _, s := range sibs {
@@ -144,7 +145,7 @@ func runC17(c *Ctx) {
 		o.Site(force.Pos(), "force %s(%s)", setName, force.Call.Args[0].String())
 		// forced only after the context fired
 		okCtx := false
-		for _, cm := range commsOf(W) {
+		for _, cm := range commsOfU(W) {
 			if cm.Dir == types.RecvOnly && chanRole(cm.Chan) == "ctx.Done" && cm.Sel != nil {
 				cs, _ := caseBlocks(cm.Sel)
 				if blk := cs[cm.Index]; blk != nil && (blk == force.Block() || blk.Dominates(force.Block())) {
@@ -172,12 +173,12 @@ func runC17(c *Ctx) {
 		o.Site(restore.Pos(), "restore %s(zero)", setName)
 		// between force and restore: a receive from done
 		var wait ssa.Instruction
-		for _, cm := range commsOf(W) {
+		for _, cm := range commsOfU(W) {
 			if cm.Sel == nil && cm.Dir == types.RecvOnly && chanRole(cm.Chan) == "var done" {
 				wait = cm.Instr
 			}
 		}
-		if wait == nil || !dominates(force, wait) || !dominates(wait, restore) {
+		if wait == nil || !domU(force, wait) || !domU(wait, restore) {
 			o.Fail(restore.Pos(), "the zero deadline is restored without first waiting for the cancelled operation to return (it would not be interrupted)")
 		}
 		// every path from the success edge of force to a return passes restore
@@ -200,7 +201,7 @@ func runC17(c *Ctx) {
 		if okEdge != nil {
 			start = blockStart(okEdge)
 		}
-		if ok, bad := mustPass(start, isReturn, func(in ssa.Instruction) bool { return in == ssa.Instruction(restore) }); !ok {
+		if ok, bad := mustPassU(start, isReturn, func(in ssa.Instruction) bool { return in == ssa.Instruction(restore) }); !ok {
 			o.Fail(bad.Pos(), "after forcing the past deadline the watcher can finish without restoring the zero deadline")
 		}
 		// wg.Done is deferred at entry
@@ -212,10 +213,10 @@ func runC17(c *Ctx) {
 		}
 		if !okDone {
 			// or an explicit Done after restore on every path
-			if ok, _ := mustPass(entryPos(W), isReturn, func(in ssa.Instruction) bool { return isCall(in, "(*sync.WaitGroup).Done") }); !ok {
+			if ok, _ := mustPassU(entryPos(W), isReturn, func(in ssa.Instruction) bool { return isCall(in, "(*sync.WaitGroup).Done") }); !ok {
 				o.Fail(W.Pos(), "the watcher does not signal its completion on every path (wg.Wait would block forever or return early)")
 			}
-			for _, in := range findInstrs(W, func(in ssa.Instruction) bool { return isPlainCall(in, "(*sync.WaitGroup).Done") }) {
+			for _, in := range findU(W, func(in ssa.Instruction) bool { return isPlainCall(in, "(*sync.WaitGroup).Done") }) {
 				if canReach(posAfter(in), restore, nil) {
 					o.Fail(in.Pos(), "the watcher signals completion before the deadline is restored")
 				}
@@ -229,17 +230,17 @@ func runC17(c *Ctx) {
 		}
 		isWait := func(in ssa.Instruction) bool { return isPlainCall(in, "(*sync.WaitGroup).Wait") }
 		o.Site(s.IO.Pos(), "I/O call %s", s.IO.Call.Method.Name())
-		if ok, bad := mustPass(posAfter(s.IO), isReturn, isClose); !ok {
+		if ok, bad := mustPassU(posAfter(s.IO), isReturn, isClose); !ok {
 			o.Fail(bad.Pos(), "a return is reachable after the I/O without close(done): the watcher is never released")
 		}
-		if ok, bad := mustPass(posAfter(s.IO), isReturn, isWait); !ok {
+		if ok, bad := mustPassU(posAfter(s.IO), isReturn, isWait); !ok {
 			o.Fail(bad.Pos(), "a return is reachable after the I/O without wg.Wait(): the restore of the deadline can happen after the return and hit the next operation")
 		}
-		for _, w := range findInstrs(F, isWait) {
+		for _, w := range findU(F, isWait) {
 			o.Site(w.Pos(), "wg.Wait()")
 			okc := false
-			for _, cl := range findInstrs(F, isClose) {
-				if dominates(cl, w) {
+			for _, cl := range findU(F, isClose) {
+				if domU(cl, w) {
 					okc = true
 				}
 			}
@@ -252,17 +253,17 @@ func runC17(c *Ctx) {
 			}
 		}
 		// wg.Add(1) before go
-		for _, g := range findInstrs(F, func(in ssa.Instruction) bool { _, ok := in.(*ssa.Go); return ok }) {
+		for _, g := range findU(F, func(in ssa.Instruction) bool { _, ok := in.(*ssa.Go); return ok }) {
 			okAdd := false
-			for _, a := range findInstrs(F, func(in ssa.Instruction) bool { return isPlainCall(in, "(*sync.WaitGroup).Add") }) {
-				if dominates(a, g) {
+			for _, a := range findU(F, func(in ssa.Instruction) bool { return isPlainCall(in, "(*sync.WaitGroup).Add") }) {
+				if domU(a, g) {
 					okAdd = true
 				}
 			}
 			if !okAdd {
 				o.Fail(g.Pos(), "the watcher is started without wg.Add before it")
 			}
-			if !dominates(g, s.IO) {
+			if !domU(g, s.IO) {
 				o.Fail(g.Pos(), "the watcher is not started before the I/O call")
 			}
 		}
@@ -333,7 +334,7 @@ func runC17(c *Ctx) {
 		}
 		if ctxErr == nil {
 			o.Fail(F.Pos(), "%s never reports the context's error", fname(F))
-		} else if !dominates(s.IO, ctxErr) {
+		} else if !domU(s.IO, ctxErr) {
 			o.Fail(ctxErr.Pos(), "the context's error is sampled before the I/O finished")
 		}
 		_ = ioErr
@@ -353,8 +354,8 @@ func runC17(c *Ctx) {
 			muByType[s.T][s.Dir] = s.Mu
 		}
 		okClosed := false
-		for _, cm := range commsOf(F) {
-			if cm.Dir == types.RecvOnly && strings.HasPrefix(chanRole(cm.Chan), "field "+s.T+".") && cm.Sel != nil && !cm.Sel.Blocking && dominates(cm.Sel, s.IO) {
+		for _, cm := range commsOfU(F) {
+			if cm.Dir == types.RecvOnly && strings.HasPrefix(chanRole(cm.Chan), "field "+s.T+".") && cm.Sel != nil && !cm.Sel.Blocking && domU(cm.Sel, s.IO) {
 				okClosed = true
 				o.Site(cm.Sel.Pos(), "closed test")
 			}
